@@ -33,6 +33,7 @@ def plan(tier, seed):
     S += [{"kind": "tmpl", "stream": i, "n": 3 if q else 30} for i in range(2 if q else 8)]
     S += [{"kind": "frontend", "stream": i, "n": 60 if q else 700} for i in range(4 if q else 12)]
     S += [{"kind": "vsa", "stream": i, "n": 600 if q else 6000} for i in range(2 if q else 6)]
+    S += [{"kind": "fpfront", "stream": i} for i in range(1 if q else 3)]
     return S
 
 
@@ -58,7 +59,10 @@ def shapes(rng, g, w):
     ]
 
 
-def fp_frontend_case(cls, rng, keep, res):
+FP_SPECIALS = [0.0, -0.0, 1.0, -1.0, float("inf"), float("-inf"), float("nan"), 2.5]
+
+
+def fp_frontend_case(cls, rng, keep, res, kval=None, form=None):
     import claripy
 
     from vf.mon import truth
@@ -66,9 +70,10 @@ def fp_frontend_case(cls, rng, keep, res):
     sort = rng.choice([claripy.FSORT_FLOAT, claripy.FSORT_DOUBLE])
     f = claripy.FPS("ff" + str(sort.length), sort, explicit_name=True)
     g = claripy.FPS("fg" + str(sort.length), sort, explicit_name=True)
-    k = claripy.FPV(rng.choice([0.0, -0.0, 1.0, -1.0, float("inf"), float("-inf"), float("nan"), 2.5]), sort)
+    k = claripy.FPV(rng.choice(FP_SPECIALS) if kval is None else kval, sort)
     s = truth.wrap_frontend(cls())
-    cons = [rng.choice([f == k, k == f, claripy.fpLEQ(f, k), claripy.fpIsNaN(f), claripy.fpAbs(f) == claripy.fpAbs(k), claripy.Not(f != k)])]
+    forms = [f == k, k == f, claripy.fpLEQ(f, k), claripy.fpIsNaN(f), claripy.fpAbs(f) == claripy.fpAbs(k), claripy.Not(f != k)]
+    cons = [rng.choice(forms) if form is None else forms[form]]
     if rng.random() < 0.4:
         cons.append(rng.choice([g == f, claripy.fpLT(g, f), claripy.fpIsInf(g)]))
     s.add(cons)
@@ -153,6 +158,18 @@ def run_shard(spec, res):
                     truth.judge_events(res, tmo, kind)
                     del keep[:-50]
         truth.judge_events(res, tmo, kind)
+    elif kind == "fpfront":
+        # every special value x every way of writing the equality, on every frontend that derives facts from constraints
+        for cls in (claripy.SolverReplacement, claripy.Solver, claripy.SolverComposite, claripy.SolverCacheless):
+            for kval in FP_SPECIALS:
+                for form in range(6):
+                    try:
+                        fp_frontend_case(cls, rng, keep, res, kval=kval, form=form)
+                    except claripy.errors.ClaripyError as exn:
+                        res.count("frontend_setup_raised:" + type(exn).__name__)
+            res.count("frontend_true_events", sum(1 for ev in truth.events if ev[3] is not None))
+            truth.judge_events(res, tmo, "frontend")
+            del keep[:]
     elif kind == "frontend":
         classes = [claripy.Solver, claripy.SolverCacheless, claripy.SolverComposite, claripy.SolverReplacement, claripy.SolverConcrete, claripy.SolverStrings, claripy.SolverHybrid, claripy.SolverVSA]
         for it in range(spec["n"]):
